@@ -2,26 +2,33 @@
  * @props C09 C03 C04 C05
  * @tier quick
  * @functions ZSTD_decompressFrame ZSTD_frameHeaderSize_internal ZSTD_decodeFrameHeader ZSTD_getFrameHeader_advanced ZSTD_getcBlockSize ZSTD_copyRawBlock ZSTD_setRleBlock
- * @bounds the one-shot frame decoder on ARBITRARY bytes: input size every value 0..NB (= 15; tail-aligned: any over-read leaves the object), every byte arbitrary after the standard magic number, so every frame header descriptor, window descriptor, content-size field, up to 3 blocks of any type, optional checksum - complete, truncated at any byte, or followed by extra bytes; destination capacity every value 0..24 (tail slice); checksum verification on or ignored
+ * @bounds the one-shot frame decoder on ARBITRARY bytes: input size every value 0..NB (= 15; tail-aligned: any over-read leaves the object), every byte arbitrary after the standard magic number, so every frame header descriptor, window descriptor, content-size field, up to 3 blocks of any type, optional checksum - complete, truncated at any byte, or followed by extra bytes; destination capacity every value 0..16 (tail slice); checksum verification on or ignored
  * @bounds decided against a reference frame walk written from doc/zstd_compression_format.md: success only for a complete well-formed frame (a truncated frame, a reserved block type, a block larger than the block size limit, a wrong content size or a wrong checksum never decode successfully); on success the decoder consumed exactly the frame's bytes (extra bytes untouched), produced exactly the sum of the regenerated block sizes = the content-size field when present, raw blocks copy the source bytes and RLE blocks repeat their byte (arbitrary output index); nothing is written past the destination capacity
  * @assume compressed blocks are decoded by a contract stub of ZSTD_decompressBlock_internal (range-checked; fails or regenerates any size up to the room and the block size limit); XXH64 is uninterpreted (digest arbitrary, update logged); no dictionary
  * @outside compressed block contents; skippable and legacy frames; multi-frame concatenation (ZSTD_decompressMultiFrame loop); windows above this build's limit
+ * @assume LAYOUT MODEL of ZSTD_DCtx (as in c14.dstream_header): a scratch copy of zstd_decompress_internal.h, regenerated from /repo at every run by regexes that must match, in which the entropy tables and the Huffman workspace - touched only by the block decoder, a stub here - are shrunk; the frame layer compiles unchanged against it
+ * @prep sed lib/decompress/zstd_decompress_internal.h zdi_small.h "\.\./common/ "
+ * @prep sed zdi_small.h zdi_small.h \(1\s*\+\s*\(1\s*<<\s*\(log\)\)\) (110)
+ * @prep sed zdi_small.h zdi_small.h hufTable\[HUF_DTABLE_SIZE\(ZSTD_HUFFDTABLE_CAPACITY_LOG\)\] hufTable[2]
+ * @prep sed zdi_small.h zdi_small.h workspace\[HUF_DECOMPRESS_WORKSPACE_SIZE_U32\] workspace[2]
  * @prep extract lib/decompress/zstd_decompress_block.c ZSTD_getcBlockSize blkos.inc
- * @link lib/common/zstd_common.c lib/common/error_private.c lib/decompress/zstd_ddict.c
+ * @link lib/common/zstd_common.c lib/common/error_private.c
  * @backend cadical
  * @mem loop
  * @defs -DZSTD_DECODER_INTERNAL_BUFFER=64
- * @cbmc --unwind 6 --unwindset __builtin_memset.0:60,__builtin_memcpy.0:60,__builtin_memmove.0:26,__builtin_memmove.1:26,harness.0:20,harness.1:26,ref_walk.0:10,ref_walk.1:6
- * @timeout 900
+ * @cbmc --unwind 6 --unwindset __builtin_memset.0:60,__builtin_memcpy.0:60,__builtin_memmove.0:18,__builtin_memmove.1:18,harness.0:20,harness.1:26,ref_walk.0:10,ref_walk.1:6
+ * @timeout 2400
  * @memgb 8
  */
 #include "v.h"
 #include <string.h>
+#include "zdi_small.h"      /* defines the include guard of the real header */
 #include "decompress/zstd_decompress.c"
+#include "decompress/zstd_ddict.c"
 #include "blkos.inc"
 
 #define NB 15
-#define DCAP 24
+#define DCAP 16
 static BYTE g_arena[V_SLACK + NB];
 static BYTE g_dstArena[V_SLACK + DCAP];
 static BYTE* g_dst; static size_t g_dcap;
